@@ -51,7 +51,11 @@ def run(out: common.Outcome):
             open(proj + "/conftest.py", "w").write(e2e.CONFTEST)
             nw = rnd.choice([2, 3])
             uid = rnd.choice([None, "myrun%d" % k])
-            args = ["-q", "-n%d" % nw, "--dist", rnd.choice(["load", "worksteal", "loadscope"])] + (["--testrunuid", uid] if uid else [])
+            # the workers are configured with -nK, or with the --tx multiplier syntax ('N*spec' expands to N workers)
+            how = rnd.choice(["-n", "tx-mult", "tx-mixed"]) if k >= 1 else "tx-mult"
+            env_args = ["-n%d" % nw] if how == "-n" else ["--tx", "%d*popen" % nw] if how == "tx-mult" else \
+                       ["--tx", "%d*popen" % (nw - 1), "--tx", "popen"]
+            args = ["-q"] + env_args + ["--dist", rnd.choice(["load", "worksteal", "loadscope"])] + (["--testrunuid", uid] if uid else [])
             env_extra = {"VERIF_E2E_PROBE": "1"}
             nested = k % 2 == 1
             if nested:   # the controller itself runs inside a worker of an outer run (a suite that starts `pytest -n` runs, run with -n)
